@@ -232,3 +232,120 @@ impl Group for Serve {
         format!("{}{}", if o.contains("429") { "429 " } else { "" }, if o.contains('X') { "dropped" } else { "" })
     }
 }
+
+/// C12 with several hosts on one port: the accept is judged by the first host's limiter (the pre-host limiter is a
+/// clone of it and shares its counters), the requests by the limiter of the host they name.
+pub struct Hosts;
+impl Group for Hosts {
+    fn timing_sensitive(&self) -> bool {
+        true
+    }
+    fn name(&self) -> &'static str {
+        "c12.hosts"
+    }
+    fn rule(&self) -> &'static str {
+        "a real server on loopback with 2-3 hosts on one port whose limiters differ (max in {2,3,5} or disabled, check_every 1, reset 1000 s; the first host's limiter doubles as the accept-time limiter): connections from 127.0.0.11-13 with 1-4 sequential requests each, every connection naming one host in its Host header; per-request outcome 200/429/closed compared with the model's `serveHosts`; oracle: requests to a host whose limiter is disabled are never answered 429 or dropped once the connection was accepted, and a fresh address (127.0.0.19) is served at the end; non-trivial = two hosts with different settings were both addressed and somebody was limited"
+    }
+    fn parallel(&self) -> bool {
+        false
+    }
+    fn generate(&self, ctx: &Ctx, rng: &mut Rng) -> Vec<String> {
+        let n = if ctx.mode == Mode::Quick { 14 } else { 150 };
+        let mut v = vec![
+            "c12.hosts 5/1/1000000;0/umax/0 [1@0@1@4,1@0@1@4,1@0@1@4,9@0@0@1]".to_owned(),
+            "c12.hosts 0/umax/0;2/1/1000000 [1@0@1@4,1@0@1@3,1@0@0@4,9@0@1@1]".to_owned(),
+        ];
+        for _ in 0..n {
+            let nh = rng.range(2, 3);
+            let cfgs: Vec<String> = (0..nh).map(|_| if rng.chance(1, 3) { "0/umax/0".to_owned() } else { format!("{}/1/1000000", *rng.pick(&[2usize, 3, 5])) }).collect();
+            let k = rng.range(4, 12);
+            let mut conns = Vec::new();
+            for _ in 0..k {
+                let a = if rng.chance(3, 4) { 1 } else { rng.range(2, 3) };
+                conns.push(format!("{a}@0@{}@{}", rng.below(nh), rng.range(1, 5)));
+            }
+            conns.push(format!("9@0@{}@1", rng.below(nh)));
+            v.push(format!("c12.hosts {} {}", cfgs.join(";"), list(conns)));
+        }
+        v
+    }
+    fn run_impl(&self, _ctx: &Ctx, line: &str) -> String {
+        let p: Vec<&str> = line.split(' ').collect();
+        let mut b = kvarn::host::Collection::builder();
+        for (i, c) in p[1].split(';').enumerate() {
+            let f: Vec<&str> = c.split('/').collect();
+            let (max, ce, reset_ms): (usize, usize, u64) = (parse_cfg(f[0]), parse_cfg(f[1]), f[2].parse().unwrap());
+            let mut ext = kvarn::Extensions::empty();
+            ext.add_prepare_single(
+                "/",
+                kvarn::prepare!(_req, _host, _path, _addr, { kvarn::FatResponse::no_cache(kvarn::prelude::Response::new(kvarn::prelude::Bytes::from_static(b"hello"))) }),
+            );
+            let name: &'static str = ["h0.test", "h1.test", "h2.test", "h3.test"][i];
+            let mut host = kvarn::host::Host::unsecure(name, "/nonexistent", ext, kvarn::host::Options::default());
+            host.limiter = kvarn::limiting::Manager::new(max, ce, reset_ms as f64 / 1000.0);
+            b = b.insert(host);
+        }
+        let Some(srv) = TestServer::try_start(b.build()) else { return "inconclusive: server did not start".into() };
+        let mut outs = Vec::new();
+        let mut alive = true;
+        for c in parse_list(p[2]).unwrap() {
+            let f: Vec<&str> = c.split('@').collect();
+            let (a, h, nreq): (u8, usize, usize) = (f[0].parse().unwrap(), f[2].parse().unwrap(), f[3].parse().unwrap());
+            let stream = match connect_from(a + 10, srv.port) {
+                Ok(s) => s,
+                Err(_) => {
+                    alive = false;
+                    outs.push("refused".to_owned());
+                    continue;
+                }
+            };
+            let mut cl = StrictClient::new(stream);
+            let mut o = Vec::new();
+            for _ in 0..nreq {
+                if cl.send(format!("GET / HTTP/1.1\r\nhost: h{h}.test\r\n\r\n").as_bytes()).is_err() {
+                    o.push("X".to_owned());
+                    break;
+                }
+                match cl.read_response(false) {
+                    Ok(r) => o.push(r.status.to_string()),
+                    Err(_) => {
+                        o.push("X".to_owned());
+                        break;
+                    }
+                }
+            }
+            drop(cl);
+            std::thread::sleep(Duration::from_millis(5));
+            outs.push(o.join("/"));
+        }
+        srv.stop();
+        format!("alive={} {}", b01(alive), list(outs))
+    }
+    fn oracle(&self, _ctx: &Ctx, line: &str, out: &str) -> Option<(String, String)> {
+        let p: Vec<&str> = line.split(' ').collect();
+        let cfgs: Vec<&str> = p[1].split(';').collect();
+        let conns = parse_list(p[2])?;
+        let outs = parse_list(out.split(' ').nth(1)?)?;
+        let last = outs.last()?;
+        if !out.starts_with("alive=1") || last != "200" {
+            return Some((format!("availability:{line}"), format!("a fresh address was not served after another address was limited: {out}")));
+        }
+        // a disabled host never limits: once its connection is accepted (the first answer arrived), nothing but 200
+        for (c, o) in conns.iter().zip(outs.iter()) {
+            let h: usize = c.split('@').nth(2)?.parse().ok()?;
+            if cfgs.get(h)?.contains("umax") && o.starts_with("200") && (o.contains("429") || o.contains('X')) {
+                return Some((format!("disabled:{line}"), format!("requests to host {h}, whose limiter is disabled, were limited: {o} (all outcomes {out})")));
+            }
+        }
+        None
+    }
+    fn nontrivial(&self, l: &str, o: &str) -> bool {
+        let p: Vec<&str> = l.split(' ').collect();
+        let cfgs: Vec<&str> = p[1].split(';').collect();
+        let hosts: std::collections::BTreeSet<&str> = parse_list(p[2]).unwrap_or_default().iter().filter_map(|c| c.split('@').nth(2).and_then(|h| h.parse::<usize>().ok())).filter_map(|h| cfgs.get(h).copied()).collect();
+        hosts.len() >= 2 && (o.contains("429") || o.contains('X'))
+    }
+    fn classify(&self, _l: &str, o: &str) -> String {
+        format!("{}{}", if o.contains("429") { "429 " } else { "" }, if o.contains('X') { "dropped" } else { "" })
+    }
+}
